@@ -174,4 +174,62 @@ Definition vsh_vector comp (Y : Z -> Z -> T * T) (l m : Z) : res (list (T * T)) 
 
 Definition vector_spherical_harmonics_Y := vsh_vector (g_VSH_Y_Component Ops).
 Definition vector_spherical_harmonics_Psi := vsh_vector (g_VSH_Psi_Component Ops).
+(** ** Dawson_Integral with its static table as explicit state.
+    [static std::vector<double> c(NMAX)] lives across calls (six zeros before the first large-argument call); the large-argument
+    branch overwrites all NMAX entries ([for(i < NMAX) c[i] = exp(...)]) and then reads them in the summation loop; the series branch
+    does not touch it.  [dawson_st c x] = (table after the call, value returned). *)
+Fixpoint upd (l : list T) (i : nat) (v : T) : list T :=
+  match l, i with
+  | [], _ => []
+  | _ :: t, O => v :: t
+  | h :: t, S i' => h :: upd t i' v
+  end.
+
+Fixpoint daw_fill (n : nat) (i : Z) (c : list T) : list T :=
+  match n with
+  | O => c
+  | S n' => daw_fill n' (i + 1)%Z (upd c (Z.to_nat i) (daw_c i))
+  end.
+
+Fixpoint daw_loop_st (c : list T) (n : nat) (i : Z) (d1 d2 e1 e2 sum : T) : T :=
+  match n with
+  | O => sum
+  | S n' => daw_loop_st c n' (i + 1)%Z (d1 + #2)%num (d2 - #2)%num (e1 * e2)%num e2
+              (sum + nth (Z.to_nat i) c #0 * (e1 / d1 + #1 / (d2 * e1)))%num
+  end.
+
+Definition dawson_st (c : list T) (x : T) : list T * T :=
+  if nltb Ops (nabs Ops x) (dec 1 5) then
+    let x2 := (x * x)%num in
+    (c, (x * (#1 - dec 2 3 * x2 * (#1 - dec 2 5 * x2 * (#1 - dec 2 7 * x2))))%num)
+  else
+    let c' := daw_fill 6 0 c in
+    let xx := nabs Ops x in
+    let nn := (2 * ntrunc Ops (dec 1 2 * xx / daw_H + dec 1 2)%num)%Z in
+    let xp := (xx - #nn * daw_H)%num in
+    let e1 := nexp Ops (#2 * xp * daw_H)%num in
+    let e2 := (e1 * e1)%num in
+    let d1 := #(nn + 1) in
+    let d2 := (d1 - #2)%num in
+    let sum := daw_loop_st c' 6 0 d1 d2 e1 e2 #0 in
+    (c', (dec 5641895835 10000000000 * sign2 Ops (nexp Ops (- xp * xp)%num) x * sum)%num).
+
+(** a history of calls in one process: the table is threaded through, the answers are collected in order *)
+Definition dawson_run (c : list T) (xs : list T) : list T * list T :=
+  fold_left (fun st x => let cy := dawson_st (fst st) x in (fst cy, snd st ++ [snd cy])) xs (c, []).
+
+(** Erfi calls Dawson_Integral (after computing h = exp(x^2/2)): it passes the table through *)
+Definition erfi_st (pi : T) (c : list T) (x : T) : list T * T :=
+  let h := nexp Ops (dec 1 2 * x * x)%num in
+  let cy := dawson_st c x in
+  (fst cy, (#2 / nsqrt Ops pi * h * snd cy * h)%num).
+
+(** mixed histories of Dawson_Integral (false) and Erfi (true) requests *)
+Definition special_st (pi : T) (c : list T) (q : bool * T) : list T * T :=
+  if fst q then erfi_st pi c (snd q) else dawson_st c (snd q).
+Definition special_run (pi : T) (c : list T) (qs : list (bool * T)) : list T * list T :=
+  fold_left (fun st q => let cy := special_st pi (fst st) q in (fst cy, snd st ++ [snd cy])) qs (c, []).
+
+(** the table of a fresh process *)
+Definition daw_table0 : list T := [#0; #0; #0; #0; #0; #0].
 End Model.
